@@ -189,3 +189,72 @@ func Harness_C20_ReorderFetcher() {
 	}
 	verif.Reached()
 }
+
+// Harness_C20_BackPressure: the reorder fetcher with a slow consumer. N items are added by a
+// producer (which blocks whenever the reorder buffer has no free slot); the harness decides,
+// step by step, which outstanding fetch completes next and when the consumer takes one
+// result from Output (capacity = batch size, as the source runner configures it). Every
+// completion order and every placement of the consumer's reads is explored; the consumer
+// must receive one result per item, in input order.
+func Harness_C20_BackPressure() {
+	ctx, cancel := context.WithCancel(context.Background())
+	defer cancel()
+	n := verif.Param("N", 6)
+	size := 2
+	nb := (n + size - 1) / size
+	gates := make([]chan struct{}, nb)
+	started := make([]bool, nb)
+	completed := make([]bool, nb)
+	for i := range gates {
+		gates[i] = make(chan struct{})
+	}
+	batcher := NewEventBatcher[int](ctx, EventBatcherParams{MaxDelay: time.Hour, MaxSize: size, Timer: &verifTimer{}})
+	errs := make(chan error, 4)
+	rf := NewReorderFetcher(ctx, NewReorderFetcherParams[int, int]{
+		Batcher: batcher,
+		FetchBatch: func(ctx context.Context, events []int) ([]int, error) {
+			j := events[0] / size
+			started[j] = true
+			<-gates[j] // the fetch is outstanding until the harness completes it
+			return events, nil
+		},
+		ErrChan:    errs,
+		BufferSize: size,
+	})
+	go func() {
+		for i := 0; i < n; i++ {
+			rf.Add(ctx, i)
+		}
+		rf.Flush(ctx)
+	}()
+	verif.Quiesce()
+	var got []int
+	for steps := 0; len(got) < n && steps < 4*n; steps++ {
+		var acts []int // batch index to complete, or -1 = the consumer takes one result
+		for j := range gates {
+			if started[j] && !completed[j] {
+				acts = append(acts, j)
+			}
+		}
+		if len(rf.Output) > 0 {
+			acts = append(acts, -1)
+		}
+		verif.Assert(len(acts) > 0, "no-deadlock-under-back-pressure")
+		if len(acts) == 0 {
+			break
+		}
+		a := acts[verif.Choose("next", len(acts))]
+		if a >= 0 {
+			completed[a] = true
+			gates[a] <- struct{}{}
+		} else {
+			got = append(got, <-rf.Output)
+		}
+		verif.Quiesce()
+	}
+	verif.Assert(len(got) == n, "one-result-per-input")
+	for i, v := range got {
+		verif.Assert(v == i, "output-in-input-order")
+	}
+	verif.Reached()
+}
